@@ -5,7 +5,7 @@ import sys
 
 sys.path.insert(0, os.path.dirname(os.path.abspath(__file__)))
 from keybase import KeyCheck  # noqa: E402
-from vlib.runner import main  # noqa: E402
+from vlib.runner import Violation, main  # noqa: E402
 
 
 class C02(KeyCheck):
@@ -26,6 +26,43 @@ class C02(KeyCheck):
     assumptions = ["values are high-entropy by construction, so an 8-byte window match is not chance"]
     essential_labels = {"protected_secret_reads": 1200, "wrap_unextractable_attempts": 400, "protection_flip_attempts": 80,
                         "derive_inherits_protection": 150, "wrap_with_untrusted_attempts": 30, "secret_values_scanned": 1000}
+
+    # -- explicit scenario: the trust matrix of C_WrapKey (payload: WRAP_WITH_TRUSTED x TRUSTED x SENSITIVE; wrapping key: TRUSTED) ---------
+    def scenarios(self):
+        W = [["CKA_WRAP", True]]
+        out = []
+        for made in ("gen", "create"):
+            def mk(kind, sens, extra):
+                return [made, kind, sens, True, False, extra, None] if made == "gen" else [made, kind, 1, sens, True, False, extra, None]
+            prog = [["so", True],
+                    mk("aes", False, W + [["CKA_TRUSTED", True]]),                                   # 0 trusted wrapping key (made by the SO)
+                    mk("aes", False, W),                                                             # 1 ordinary wrapping key
+                    mk("aes", False, [["CKA_WRAP_WITH_TRUSTED", True], ["CKA_TRUSTED", True]]),      # 2 payload: WWT and itself trusted
+                    mk("generic", False, [["CKA_WRAP_WITH_TRUSTED", True]]),                         # 3 payload: WWT
+                    mk("des3", True, [["CKA_WRAP_WITH_TRUSTED", True], ["CKA_TRUSTED", True]]),      # 4 payload: WWT, trusted, sensitive
+                    mk("generic", False, [["CKA_TRUSTED", True]]),                                   # 5 payload: trusted only
+                    ["so", False]]
+            for payload in (2, 3, 4, 5):
+                for wi in (0, 1):
+                    for want in (False, True):
+                        prog.append(["wrap", payload, wi, want])
+            out.append(prog)
+            # the same after copies and flips of the payloads
+            out.append(prog[:8] + [["copy", 2, None, None, [], None, None], ["copy", 4, None, None, [], None, None], ["set", 3, [["CKA_WRAP_WITH_TRUSTED", False]], None, None]] +
+                       [["wrap", p_, wi, want] for p_ in (2, 3, 4, 6, 7) for wi in (0, 1) for want in (False, True)])
+        return out
+
+    def extra(self, ctx, tier, shard, nshards):
+        for i, prog in enumerate(self.scenarios()):
+            if i % nshards != shard:
+                continue
+            try:
+                self.run_program(ctx, prog)
+                ctx.label("scenarios_run")
+            except Violation as v:
+                v.program = prog
+                return v
+        return None
 
 
 if __name__ == "__main__":
